@@ -1,8 +1,7 @@
 import Pywbem.Model.Resolve
 open Lean Pywbem.Proto Pywbem.Model.Resolve
 
-/-! C12 driver.  Input line: {"decls":[qdecl,…],"ops":[op,…]}   (schema: harness/c12.py, "wire format")
-    Output: {"outs":[out,…],"classes":[name,…],"insts":[[cls,key],…]} -/
+/-! C12 driver (schema: harness/c12lib.py, "wire format"); see `handle`. -/
 
 def optBool (j : Json) (k : String) : Option Bool := getBool j k
 def optChars (j : Json) (k : String) : Option (List Char) := getChars j k
@@ -62,6 +61,9 @@ def parseOp (j : Json) : Option Op :=
   | some "supers" => some (.supers (nameD j "n"))
   | some "addInst" => some (.addInst { cls := nameD j "cls", key := natD j "key" })
   | some "enumInsts" => some (.enumInsts (nameD j "n"))
+  | some "addDecl" => some (.addDecl (parseDecl (getField j "d")))
+  | some "mofCreate" => some (.mofCreate (parseCls (getField j "c")))
+  | some "isSub" => some (.isSub (nameD j "k") (nameD j "sup"))
   | _ => none
 
 def ob (b : Option Bool) : Json := optToJson (fun (x : Bool) => (x : Json)) b
@@ -101,16 +103,30 @@ def outToJson : Out → Json
   | .classes l => Json.mkObj [("ok", Json.mkObj [("classes", Json.arr (l.map clsToJson).toArray)])]
   | .names l => Json.mkObj [("ok", Json.mkObj [("names", Json.arr (l.map cpsToJson).toArray)])]
   | .insts l => Json.mkObj [("ok", Json.mkObj [("insts", Json.arr (l.map instToJson).toArray)])]
+  | .flag b => Json.mkObj [("ok", Json.mkObj [("flag", b)])]
   | .err e => e.toJson
 
+def parseROp (j : Json) : Option ROp :=
+  match getStr j "op" with
+  | some "addNs" => some (.addNs (nameD j "ns"))
+  | some "removeNs" => some (.removeNs (nameD j "ns"))
+  | _ => (parseOp j).map (fun o => .inNs (nameD j "ns") o)
+
+def nsToJson (e : List Char × State) : Json :=
+  Json.mkObj [("ns", cpsToJson e.1),
+              ("classes", Json.arr (e.2.classes.map (fun c => cpsToJson c.name)).toArray),
+              ("insts", Json.arr (e.2.insts.map instToJson).toArray),
+              ("decls", Json.arr (e.2.decls.map (fun d => cpsToJson d.name)).toArray)]
+
+/-- Input line: {"default": name of the initial namespace, "ops":[rop,…]} where rop carries "ns".
+    Output: {"outs":[out,…],"nss":[{"ns","classes","insts","decls"},…]} -/
 def handle (j : Json) : Json :=
-  match (getArr j "ops").mapM parseOp with
+  match (getArr j "ops").mapM parseROp with
   | none => Json.mkObj [("bad", "op")]
   | some ops =>
-    let s0 : State := { decls := (getArr j "decls").map parseDecl }
-    let (s, outs) := run s0 ops
+    let r0 : Repo := { nss := [(stripSlash (nameD j "default"), {})] }
+    let (r, outs) := rrun r0 ops
     Json.mkObj [("outs", Json.arr (outs.map outToJson).toArray),
-                ("classes", Json.arr (s.classes.map (fun c => cpsToJson c.name)).toArray),
-                ("insts", Json.arr (s.insts.map instToJson).toArray)]
+                ("nss", Json.arr (r.nss.map nsToJson).toArray)]
 
 def main : IO Unit := runDriver handle
